@@ -136,14 +136,32 @@ Theorem mapped_get_put :
 Proof. exact invoke_spec_s. Qed.
 Print Assumptions mapped_get_put.
 
-(* AddInput without mappings: accepted only alone; the successor gets the value itself *)
+(* AddInput without mappings: accepted only alone and only between assignable types; the successor
+   gets the value itself, chunk by chunk in Stream — unless the predecessor's type is an interface and
+   the successor's is not: then the edge's run-time type check turns a value that is not of the
+   successor's input type into an error (never a panic). *)
 Theorem plain_edge_alone :
   forall (env : senv) (T : ty) (ds : list decl) (ckss : list checks),
     compile env T ds = CAccept ckss -> has_plain ds = true ->
-    exists d, ds = [d] /\ d_maps d = [] /\
-      (forall s, run_invoke env T ds ckss [s] = Ok s) /\ (forall cs, run_stream env T ds ckss [cs] = Ok cs).
+    exists d, ds = [d] /\ d_maps d = [] /\ check_assignable (d_ty d) T <> MustNot /\
+      (forall s, run_invoke env T ds ckss [s] =
+                 if (match check_assignable (d_ty d) T with May => negb (slot_ok T s) | _ => false end)
+                 then Err ECheck else Ok s) /\
+      (forall cs, run_stream env T ds ckss [cs] =
+                  if forallb (fun c => match check_assignable (d_ty d) T with May => slot_ok T c | _ => true end) cs
+                  then Ok cs else Err ECheck).
 Proof. exact plain_edge_spec. Qed.
 Print Assumptions plain_edge_alone.
+
+Example plain_edge_nonvacuous :
+  let ds := [ {| d_ty := TAny; d_maps := [] |} ] in
+  compile ex_env (TStruct 0) ds = CAccept [[]] /\
+  run_invoke ex_env (TStruct 0) ds [[]] [VStruct 0 [(0, VInt 1)]]%N = Ok (VStruct 0 [(0, VInt 1)])%N /\
+  run_invoke ex_env (TStruct 0) ds [[]] [VInt 1] = Err ECheck /\
+  run_invoke ex_env (TStruct 0) ds [[]] [VNil] = Err ECheck /\
+  run_stream ex_env (TStruct 0) ds [[]] [[VStruct 0 []; VInt 1]] = Err ECheck /\
+  compile ex_env (TStruct 0) [ {| d_ty := TInt; d_maps := [] |} ] = CErrStatic.
+Proof. vm_compute. repeat split; reflexivity. Qed.
 
 (* the accepted example: three predecessors, nested struct / pointer / map / any-hole
    targets, one source path below an interface-typed field (checked at request time) *)
@@ -460,6 +478,16 @@ Theorem runtime_check_errors_promoted :
                      run_stream_x env pe T ds ss ckss chunkss <> Panic).
 Proof. exact run_no_panic_x. Qed.
 Print Assumptions runtime_check_errors_promoted.
+
+(* declaration order and Go's map iteration order do not matter, whatever spellings are used *)
+Theorem promoted_order_independent :
+  forall (env : senv) (pe : penv) (T : ty),
+    (forall ds ds', Permutation ds ds' ->
+       ((exists ckss, compile_x env pe T ds [] = CAccept ckss) <-> (exists ckss', compile_x env pe T ds' [] = CAccept ckss'))) /\
+    (forall m m', Permutation m m' -> no_conflict (keys (expand_keys env pe T m)) ->
+       convert_to_x env pe T m = convert_to_x env pe T m').
+Proof. exact (fun env pe T => conj (compile_x_accept_perm env pe T) (convert_to_x_perm env pe T)). Qed.
+Print Assumptions promoted_order_independent.
 
 (* the harness's struct Emb (= 3): Leaf (= 30) embedded by value, *Inner (= 31) embedded by
    pointer, W (= 32); the fields of Leaf and Inner are promoted *)
